@@ -39,7 +39,8 @@ RULE = ('World run: a workbook of 2-9 (thorough 12) cells on a random cyclic '
         'loaded with finish(circular=True) along 3-4 schedules (dictionary '
         'item order, two-stage builds each closed with '
         'finish(circular=True), placement = translation + renaming, file '
-        'path) in 2 '
+        'path; 4 % of the worlds run a cycle through a spill reference B1#, '
+        'file path only) in 2 '
         '(quick) / 4 (thorough) PYTHONHASHSEED interpreters; non-trivial: '
         'the world has >= 1 static cycle and >= 2 schedules ran; distinct by '
         '(world, schedules) digest. Graph run (every 16th): one of 16 slices '
